@@ -610,7 +610,34 @@ func (g *Gen) boolExpr(env []binding, d int) r.Val {
 	if d >= g.O.MaxDepth {
 		return sym([]string{"t", "nil"}[g.pick("leafbool", 2)])
 	}
-	switch g.pick("boolk", 9) {
+	switch g.pick("boolk", 11) {
+	case 9, 10:
+		// a variable that holds a list, empty in most cases, is the test itself: an empty list is false however it was
+		// made ((list), '(), the cdr of a one-element list) and however the variable got it (parameter, multiple-value-bind)
+		g.kind("list-variable-as-test")
+		var e r.Val
+		switch g.pick("emptyk", 5) {
+		case 0:
+			e = r.L(sym("list"))
+		case 1:
+			e = r.L(sym("quote"), r.L())
+		case 2, 3:
+			e = r.L(sym("cdr"), r.L(sym("list"), g.Expr(TInt, env, d+1)))
+		default:
+			e = g.Expr(TList, env, d+1)
+		}
+		v := "l" + g.varName()
+		test := r.L(sym("if"), sym(v), sym("t"), sym("nil"))
+		switch g.pick("emptytest", 4) {
+		case 0:
+			test = r.L(sym("and"), sym(v), sym("t"))
+		case 1:
+			test = r.L(sym("cond"), r.L(sym(v), sym("t")), r.L(sym("t"), sym("nil")))
+		}
+		if g.pick("emptybind", 3) == 0 {
+			return r.L(sym("multiple-value-bind"), r.L(sym(v)), e, test)
+		}
+		return r.L(sym("funcall"), r.L(sym("lambda"), r.L(sym(v)), test), e)
 	case 0:
 		return sym("t")
 	case 1:
